@@ -20,23 +20,37 @@
 (***************************************************************************)
 EXTENDS Integers, Sequences, FiniteSets, TLC
 
-CONSTANTS MaxSites, Unique
+CONSTANTS MaxSites, Unique,
+          Kws,        \* keyword-argument forms enumerated: subset of AllKws
+          Scopes      \* where a call site sits: "top" (main graph) | "body" (inside ITS OWN outer @onnx_function,
+                      \*   so two "body" sites live in SIBLING function bodies = sibling child contexts)
 
 Insts == {1, 2}
-Kws == {"none", "s1", "s2", "traced", "param"}
+\* "ab" / "ba": two traced keyword arguments (scale, shift) written in this / the opposite order at the call site
+AllKws == {"none", "s1", "s2", "traced", "param", "ab", "ba"}
 \* instance tables: object 1 is (w1, cfg1); object 2 is an equal twin, or differs in weights or config
 Tables == {"twin", "other_weights", "other_config"}
 W(tab, i) == IF i = 2 /\ tab = "other_weights" THEN 2 ELSE 1
 Cfg(tab, i) == IF i = 2 /\ tab = "other_config" THEN 2 ELSE 1
 
-Site == [inst : Insts, kw : Kws, shp : {1, 2}, dt : {1, 2}]
+Site == [inst : Insts, kw : Kws, shp : {1, 2}, dt : {1, 2}, scope : Scopes]
 
-VARIABLES tab, sites, k, freg, calls, ids
-vars == <<tab, sites, k, freg, calls, ids>>
+VARIABLES tab, sites, k, freg, calls, ids,
+          ctr,        \* name counters: ctr[0] is the dict object every context of a conversion shares by
+                      \* reference; ctr[i] is the private copy of call site i's outer body (used only by Dev_CopyCounters)
+          copied      \* TRUE once a deviation detached the counters of the function bodies
+vars == <<tab, sites, k, freg, calls, ids, ctr, copied>>
 
-KwCap(kw) == CASE kw \in {"s1", "s2", "none"} -> kw [] kw = "traced" -> "dynamic" [] kw = "param" -> "call_input"
-Sem(s) == <<W(tab, s.inst), Cfg(tab, s.inst), KwCap(s.kw), s.shp, s.dt>>
-Arity(s) == 1 + (IF s.kw \in {"traced", "param"} THEN 1 ELSE 0)
+\* what the function computes does not depend on the order keywords are written in
+KwSem(kw) == CASE kw \in {"s1", "s2", "none"} -> kw [] kw = "traced" -> "dynamic" [] kw = "param" -> "call_input"
+               [] kw \in {"ab", "ba"} -> "dynamic2"
+\* what the registry key records: captured items in CALL-SITE order
+KwCap(kw) == IF kw \in {"ab", "ba"} THEN <<"dynamic2", kw>> ELSE <<KwSem(kw), "-">>
+\* runtime inputs appended to the call node / declared by the definition, in order
+RuntimeOrd(kw) == CASE kw = "ab" -> <<"scale", "shift">> [] kw = "ba" -> <<"shift", "scale">>
+                    [] kw = "traced" -> <<"scale">> [] kw = "param" -> <<"flip">> [] OTHER -> <<>>
+Sem(s) == <<W(tab, s.inst), Cfg(tab, s.inst), KwSem(s.kw), s.shp, s.dt>>
+Arity(s) == 1 + Len(RuntimeOrd(s.kw))
 \* ids[i]: the identity the registry sees for object i (differs from i only under Dev_IdReuse)
 Key(s) == IF Unique THEN <<"u", W(tab, s.inst), Cfg(tab, s.inst), KwCap(s.kw), s.shp, s.dt>>
           ELSE <<"s", ids[s.inst], KwCap(s.kw), s.shp, s.dt>>
@@ -45,6 +59,12 @@ Init == /\ tab \in Tables
         /\ sites \in UNION {[1..n -> Site] : n \in 1..MaxSites}
         /\ k = 0 /\ freg = <<>> /\ calls = <<>>
         /\ ids = [i \in Insts |-> i]
+        /\ ctr = [c \in 0..MaxSites |-> 0] /\ copied = FALSE
+
+\* _allocate_friendly_name: (domain, op_type) = (namespace.base.<n>, base); n from the counters the lowering
+\* context of THIS call site holds -- the shared dict, unless a deviation gave the body a private copy
+CtrOf(i) == IF copied /\ sites[i].scope = "body" THEN i ELSE 0
+NextName(i) == ctr[CtrOf(i)] + 1
 
 InReg(key) == \E j \in 1..Len(freg) : freg[j].key = key
 Lookup(key) == CHOOSE j \in 1..Len(freg) : freg[j].key = key
@@ -53,24 +73,33 @@ LowerCallHit ==
     /\ k < Len(sites)
     /\ LET s == sites[k + 1] IN
        /\ InReg(Key(s))
-       /\ calls' = Append(calls, [site |-> k + 1, def |-> Lookup(Key(s)), nin |-> Arity(s)])
+       /\ calls' = Append(calls, [site |-> k + 1, def |-> Lookup(Key(s)), nin |-> Arity(s), ord |-> RuntimeOrd(s.kw)])
     /\ k' = k + 1
-    /\ UNCHANGED <<tab, sites, freg, ids>>
+    /\ UNCHANGED <<tab, sites, freg, ids, ctr, copied>>
 
 LowerCallMiss ==     \* FunctionScope.begin .. trace body .. lower .. end .. registry.put
     /\ k < Len(sites)
     /\ LET s == sites[k + 1] IN
        /\ ~InReg(Key(s))
-       /\ freg' = Append(freg, [key |-> Key(s), sem |-> Sem(s), nin |-> Arity(s)])
-       /\ calls' = Append(calls, [site |-> k + 1, def |-> Len(freg) + 1, nin |-> Arity(s)])
+       /\ freg' = Append(freg, [key |-> Key(s), sem |-> Sem(s), nin |-> Arity(s), ord |-> RuntimeOrd(s.kw), name |-> NextName(k + 1)])
+       /\ calls' = Append(calls, [site |-> k + 1, def |-> Len(freg) + 1, nin |-> Arity(s), ord |-> RuntimeOrd(s.kw)])
+       /\ ctr' = [ctr EXCEPT ![CtrOf(k + 1)] = @ + 1]
     /\ k' = k + 1
-    /\ UNCHANGED <<tab, sites, ids>>
+    /\ UNCHANGED <<tab, sites, ids, copied>>
 
 Next == LowerCallHit \/ LowerCallMiss
 Spec == Init /\ [][Next]_vars
 
 DedupSound == \A c \in 1..Len(calls) : freg[calls[c].def].sem = Sem(sites[calls[c].site])
 CallArity == \A c \in 1..Len(calls) : freg[calls[c].def].nin = calls[c].nin
+\* the i-th input of a call node is bound to the i-th formal of the definition it refers to
+CallBinding == \A c \in 1..Len(calls) : freg[calls[c].def].ord = calls[c].ord
+\* the model stores functions by (domain, name): two definitions must never get one name, and a call
+\* resolves to the LAST definition stored under its name
+NamesUnique == \A i, j \in 1..Len(freg) : i # j => freg[i].name # freg[j].name
+Resolve(c) == CHOOSE j \in 1..Len(freg) : /\ freg[j].name = freg[calls[c].def].name
+                                           /\ \A m \in 1..Len(freg) : freg[m].name = freg[j].name => m <= j
+ResolvedSound == \A c \in 1..Len(calls) : freg[Resolve(c)].sem = Sem(sites[calls[c].site])
 \* sharing happens only between equal functions; the converse (equal => shared) is not required
 DistinctWhenDifferent ==
     \A a, b \in 1..Len(calls) : Sem(sites[calls[a].site]) # Sem(sites[calls[b].site]) => calls[a].def # calls[b].def
@@ -79,10 +108,27 @@ DistinctWhenDifferent ==
 Dev_IdReuse ==      \* object 1 was a temporary; its identity is handed to object 2
     /\ ~Unique /\ k >= 1 /\ ids[2] # ids[1]
     /\ ids' = [ids EXCEPT ![2] = ids[1]]
-    /\ UNCHANGED <<tab, sites, k, freg, calls>>
+    /\ UNCHANGED <<tab, sites, k, freg, calls, ctr, copied>>
 Dev_MutateBetweenCalls ==   \* the user's object changes its weights between two calls
     /\ ~Unique /\ k >= 1 /\ tab = "twin"
     /\ tab' = "other_weights"
-    /\ UNCHANGED <<sites, k, freg, calls, ids>>
+    /\ UNCHANGED <<sites, k, freg, calls, ids, ctr, copied>>
+Dev_CopyCounters ==         \* a function body gets a COPY of the name counters instead of the shared dict
+    /\ ~copied /\ k = 0
+    /\ copied' = TRUE
+    /\ UNCHANGED <<tab, sites, k, freg, calls, ids, ctr>>
+\* the key canonicalises keyword order while the call node keeps appending in call-site order
+DevKey(s) == IF Unique THEN <<"u", W(tab, s.inst), Cfg(tab, s.inst), KwSem(s.kw), s.shp, s.dt>>
+             ELSE <<"s", ids[s.inst], KwSem(s.kw), s.shp, s.dt>>
+Dev_LowerCallHitSortedKey ==
+    /\ k < Len(sites)
+    /\ LET s == sites[k + 1] IN
+       /\ \E j \in 1..Len(freg) : freg[j].key[1] = Key(s)[1] /\ freg[j].sem = Sem(s) /\ freg[j].key # Key(s)
+       /\ LET j == CHOOSE j \in 1..Len(freg) : freg[j].key[1] = Key(s)[1] /\ freg[j].sem = Sem(s) /\ freg[j].key # Key(s) IN
+          calls' = Append(calls, [site |-> k + 1, def |-> j, nin |-> Arity(s), ord |-> RuntimeOrd(s.kw)])
+    /\ k' = k + 1
+    /\ UNCHANGED <<tab, sites, freg, ids, ctr, copied>>
 DevSpec == Init /\ [][Next \/ Dev_IdReuse \/ Dev_MutateBetweenCalls]_vars
+DevSpecNames == Init /\ [][Next \/ Dev_CopyCounters]_vars
+DevSpecKwOrder == Init /\ [][Next \/ Dev_LowerCallHitSortedKey]_vars
 =============================================================================
